@@ -307,7 +307,7 @@ static void remote(void *arg)
     }
 }
 
-static void cfg_str(char *b, size_t n) { snprintf(b, n, "worker script=%s qlen=%d", g_script, g_qlen); }
+static void cfg_str(char *b, size_t n) { snprintf(b, n, "worker:script=%s:qlen=%d", g_script, g_qlen); }
 
 static int check(int outcome, char *sig, char *msg)
 {
